@@ -448,6 +448,8 @@ def run(prog, rep, tier):
                     allow_raw=("pdag_to_dag",))        # the extension keeps the weights of the directed edges; every *decision* must read the pattern only
     cpdag_core(rep, prog)
     extension_rules(rep, prog)
+    from .common import inputs_intact
+    inputs_intact(rep, prog, [U + n_ for n_ in ['dag_to_cpdag', 'order_edges', 'label_edges', 'pdag_to_dag', 'pdag_to_cpdag']])
     dag_gate(rep, prog, U + "order_edges", "G", rule="GATE")
     rep.require_count("LABELS", 4)
     rep.require_count("PAT.entry", 4)
